@@ -309,7 +309,7 @@ LEVEL_TEXT = ("Theorems for every lint-clean closed circuit without blackboxes, 
               "containing the identifiers of the text: (C03_roundtrip_identical_bbfree) without constants, reading the primitive-style text "
               "back succeeds and returns the identical circuit (nodes, types, edges, output marks, name); (C03_roundtrip_equiv_bbfree) in both "
               "styles, with constants 0/1, reading the text back succeeds and gives a circuit with the same name, inputs, outputs and registry "
-              "that is equivalent to the original on the outputs. Statements for all lint-clean circuits with legal names: "
+              "that is equivalent to the original on the outputs - and at every node of the original (C03_roundtrip_equiv_bbfree_nodes). Statements for all lint-clean circuits with legal names: "
               "roundtrip_identical_full and roundtrip_equiv_full; proved parts: the writer's expression for a gate denotes the gate's function "
               "of its operands (all types, all arities, all operand orders), the reader's gates for it carry that value (C02), the interface of "
               "a successful read. The composition for circuits with blackboxes / x constants is decided per generated circuit by the Coq "
